@@ -42,6 +42,7 @@ namespace
         auto set = right.data<d_code, instruction_set>();
 
         frame f(scope, set);
+        f.globals_selected(true);
         runtime.context_active().push_frame(f);
         return {};
     }
